@@ -86,6 +86,18 @@ func (s *mvSpec) newest(key []byte, ts, since uint64) (specVer, bool) {
 	return best, found
 }
 
+// dupVersion: the history holds two writes of key with the same version (managed mode only).
+func (s *mvSpec) dupVersion(key []byte) bool {
+	seen := map[uint64]bool{}
+	for _, v := range s.hist[string(key)] {
+		if seen[v.ver] {
+			return true
+		}
+		seen[v.ver] = true
+	}
+	return false
+}
+
 func (s *mvSpec) keys() []string {
 	var ks []string
 	for k := range s.hist {
@@ -121,6 +133,8 @@ type mvSess struct {
 	lastCts uint64
 	// DropAll ran in this session (in-memory mode: the value-size limit then changes, F18)
 	droppedAll bool
+	// an L0->L0 compaction ran in this session (it re-sorts L0 by Smallest: finding F2)
+	l0l0Seen bool
 }
 
 func (s *mvSess) close() {
@@ -220,6 +234,7 @@ func (s *mvSess) open(kv map[string]string) (string, error) {
 	s.spec = newSpec()
 	s.lastCts = 0
 	s.droppedAll = false
+	s.l0l0Seen = false
 	mc, ms, _ := badger.VerifLimits(s.db)
 	return fmt.Sprintf("reset managed=%d keep=%d thr=%d inmem=%d levels=%d detect=%d tblsz=%d basesz=%d comp=%d memsz=%d now=%d maxcount=%d maxsize=%d vlogsz=%d",
 		b2i(s.managed), s.keep, s.thr, b2i(s.inmem), s.levels, b2i(detect), tblsz, basesz, comp, memsz, s.now, mc, ms, 1<<20), nil
@@ -602,7 +617,12 @@ func (s *mvSess) judgeGet(tx *mvTxn, key []byte, out string, fail func(string, s
 		}
 	}
 	if out != want {
-		fail("C01-read", fmt.Sprintf("Get returned %q, the snapshot at readTs=%d holds %q", out, tx.readTs, want))
+		tag := "C01-read"
+		if s.managed && s.spec.dupVersion(key) && strings.HasPrefix(out, "found ") && s.l0l0Seen {
+			// the same (key, version) was written twice and an L0->L0 compaction has re-sorted L0
+			tag = "F2:l0-resort-duplicate-version"
+		}
+		fail(tag, fmt.Sprintf("Get returned %q, the snapshot at readTs=%d holds %q", out, tx.readTs, want))
 	}
 }
 
@@ -661,7 +681,12 @@ func (s *mvSess) judgeStable(what string, pre []readSnap, fail func(string, stri
 	for _, r := range pre {
 		now := s.readAt([]byte(r.key), r.ts)
 		if now != r.res {
-			fail("C12-read-changed", fmt.Sprintf("%s changed read of key %s at ts=%d: before %q after %q", what, hx([]byte(r.key)), r.ts, r.res, now))
+			tag := "C12-read-changed"
+			if s.managed && s.spec.dupVersion([]byte(r.key)) && s.l0l0Seen && now != "absent" && r.res != "absent" &&
+				strings.SplitN(now, ":", 2)[0] == strings.SplitN(r.res, ":", 2)[0] {
+				tag = "F2:l0-resort-duplicate-version"
+			}
+			fail(tag, fmt.Sprintf("%s changed read of key %s at ts=%d: before %q after %q", what, hx([]byte(r.key)), r.ts, r.res, now))
 			return
 		}
 		v, ok := s.spec.newest([]byte(r.key), r.ts, 0)
@@ -670,6 +695,10 @@ func (s *mvSess) judgeStable(what string, pre []readSnap, fail func(string, stri
 			want = fmt.Sprintf("%d:%d:%d:%s", v.ver, v.userMeta, v.exp, hx(v.val))
 		}
 		if now != want && !(s.spec.compacted && r.ts < s.spec.maxDiscard) && s.spec.judged([]byte(r.key), r.ts) {
+			if s.managed && s.spec.dupVersion([]byte(r.key)) && s.l0l0Seen {
+				fail("F2:l0-resort-duplicate-version", fmt.Sprintf("after %s key %s at ts=%d reads %q, history says %q", what, hx([]byte(r.key)), r.ts, now, want))
+				return
+			}
 			fail("C12-read-wrong", fmt.Sprintf("after %s key %s at ts=%d reads %q, history says %q", what, hx([]byte(r.key)), r.ts, now, want))
 			return
 		}
@@ -747,9 +776,15 @@ func (s *mvSess) emitEventsX(emit func(string, string), fail func(string, string
 			if len(drops) > 0 {
 				op += " drop=" + strings.Join(drops, ",")
 			}
+			if allDerived && !s.managed {
+				op += fmt.Sprintf(" lag=%d", ev.DiscardTs)
+			}
 			op += suffix
 			emit(op, fmt.Sprintf("ok discard=%d overlap=%d", ev.DiscardTs, b2i(ev.HasOverlap)))
 			s.st.Inc(fmt.Sprintf("compact:L%d->L%d", ev.ThisLevel, ev.NextLevel))
+			if ev.ThisLevel == 0 && ev.NextLevel == 0 {
+				s.l0l0Seen = true
+			}
 			if len(ev.BotIDs) > 0 {
 				s.st.Inc("compact:with-bot")
 			}
